@@ -58,6 +58,14 @@ CLAIMED.update({
         design="DESIGN.md section 5, C05"),
 })
 
+CLAIMED.update({
+    "C06": dict(
+        text="Deductive proof (Verus) on the real offset-to-line loops of syntax_error / compiler_error / warning (line index = number of newlines before the offset, for every text and every offset including 0 and end of text), on the index expressions used to read the line table, and on the parse-error arm of compile() (file and line come from the line-table entry of the line pest reports; no index panic, also for an empty table).",
+        note="Partial: that cpp::process builds the line table correctly across comments, splices, skipped regions and includes is not under contract (string scanning without library specifications). Byte offsets equal character offsets only for ASCII text (A-ascii). pest line numbers are 1-based (A-pest-lines).",
+        technique="contract-based deductive verification (Verus loop invariant on the code blocks extracted mechanically from /repo)",
+        design="DESIGN.md section 5, C06"),
+})
+
 NOT_APPLICABLE = {
     "C11": "no contract within reach: the property is about the comment/splice scanner in cpp::process (str::split*/byte slicing without vstd specifications), pest WHITESPACE/COMMENT rules (generated parser) and a relation between two whole compilations",
 }
